@@ -93,7 +93,7 @@ PROPS["C09"] = dict(
     rule="random object trees (depth <= 2; 11 kinds: Point, SimplePoint, Rect, LineString, Polygon, Feature, 5 collection kinds, with 0-4 or 60-70 children, empty children) whose leaves are constructed in contact with a common valid polygon; all ordered pairs; 4 geometry-index x 4 child-index configurations; per pair: 6 predicate answers + 8 algebraic-law flags (within=contains swapped, intersects symmetric, contains=>intersects, contains=>rect covers, intersects=>rects meet, self containment, Feature transparency, SimplePoint/Rect representation transparency) compared with the Coq model; answers compared with the composed point-set oracle when no polygon leaf is in boundary contact (where the C03 findings live). non-trivial: all; distinct = distinct case lines",
     trusted_base=OBJ_TB + ["executable oracle PairSpec.meets_x / covers_x at the leaves (completeness not proved)"],
     assumptions=["float64 exact on D", "Circle is outside this model (real-valued model, C13)"],
-    partial=["contains => A's rectangle covers B's is proved (CoversBoxes.v), hence also rectangles meet; intersects symmetry is proved at the Geometry interface and at the object level (through Features, collections, nesting: ObjSym.o_intersects_sym) for everything except a polygon with holes facing a polygon with holes, and a Rect used as a ring is proved to be the ring of its five corners (RR_as_RS); contains => intersects, self containment, symmetry for hole pairs and Circles, and rect-as-polygon for the Rect-specific fast paths are law flags"],
+    partial=["contains => A's rectangle covers B's is proved (CoversBoxes.v), hence also rectangles meet; intersects symmetry is proved at the Geometry interface and at the object level (through Features, collections, nesting: ObjSym.o_intersects_sym) for everything except a polygon with holes facing a polygon with holes, and a Rect used as a ring is proved to be the ring of its five corners (RR_as_RS); a non-empty object without polygon holes intersects itself (ObjSelf.o_intersects_self) and contains => intersects holds for Point and Rect receivers (ObjLaws.g_contains_intersects); contains => intersects for Line / Polygon receivers, self containment, symmetry for hole pairs and Circles, and rect-as-polygon for the Rect-specific fast paths are law flags"],
 )
 PROPS["C10"] = dict(
     translated_functions=['unionRects', 'Rect.IntersectsRect'],
